@@ -255,7 +255,7 @@ func dominatingConds(blk *ssa.BasicBlock, f func(cond ssa.Value, taken bool, at 
 			continue
 		}
 		for si, s := range d.Succs {
-			if len(s.Preds) == 1 && s.Dominates(blk) {
+			if soleEntry(s, d) && s.Dominates(blk) && d.Succs[0] != d.Succs[1] {
 				f(ifi.Cond, si == 0, d)
 			}
 		}
@@ -404,4 +404,20 @@ func returnedValue(ret *ssa.Return, idx int) ssa.Value {
 		b = b.Preds[0]
 	}
 	return v
+}
+
+// soleEntry: control enters block s only through the edge from d (all other
+// predecessors of s are dominated by s itself, i.e. they are loop back edges).
+func soleEntry(s, d *ssa.BasicBlock) bool {
+	n := 0
+	for _, p := range s.Preds {
+		if p == d {
+			n++
+			continue
+		}
+		if !s.Dominates(p) {
+			return false
+		}
+	}
+	return n == 1
 }
